@@ -12,13 +12,69 @@ import vlib
 KEYS_FULL = [[0], [0, 0], [0, 255], [1], [255], [255, 255]]
 
 
+def validate_concurrent(ctx, binary, rounds, payload=None):
+    """Record one-writer/three-reader runs on each backend; TLC validates them against KVTrace.tla.
+    On a rejection the offending round is reported (replayable: the recorded trace itself) and
+    validation continues with the remaining rounds."""
+    import os
+    tf = os.path.join(ctx.scratch, "kvtrace.ndjson")
+    if payload is None:
+        res = ctx.run_engine(binary, "TestKVConcurrent", {"keys": KEYS_FULL, "rounds": rounds, "writer_ops": 8, "hammer_rounds": 3, "hammer_batches": 150, "out": tf}, timeout=900)
+        lines = open(tf).read().splitlines()
+        rinfo = res["stats"]["rounds"]
+    else:
+        lines = payload["lines"]
+        rinfo = [{"backend": payload.get("backend", "?"), "round": 0, "first": 1, "last": len(lines)}]
+    if len(lines) < 10:
+        raise vlib.Broken("concurrent recorder produced no events")
+    accepted = 0
+    for _ in range(6):
+        with open(tf, "w") as f:
+            f.write("\n".join(lines) + "\n")
+        ok, r = ctx.tlc_trace("kv", "KVTrace.tla", "KVTrace.cfg", tf, timeout=900)
+        if ok:
+            accepted += len(rinfo)
+            break
+        if r["violated"] != "postcondition" or not r.get("highwater"):
+            raise vlib.Broken("trace validation failed for another reason than rejection:\n" + "\n".join(r["out"].splitlines()[-30:]))
+        hw = r["highwater"]  # index of the first line no behaviour could consume
+        bad = [x for x in rinfo if x["first"] <= hw <= x["last"]] or [rinfo[-1]]
+        bad = bad[0]
+        seg = lines[bad["first"] - 1: bad["last"]]
+        ctx.report("kv-concurrent:%s" % bad["backend"],
+                   "backend %s: recorded concurrent history is not a behaviour of KVTrace.tla (stuck at line %d of the round: %s)" % (
+                       bad["backend"], hw - bad["first"] + 1, lines[hw - 1][:200]),
+                   {"property": "C15", "engine": "kv", "test": "TestKVConcurrent", "seed": ctx.seed,
+                    "input": {"trace": {"lines": seg, "backend": bad["backend"]}}})
+        # drop the rejected round, keep validating the rest
+        keep, new_info, pos = [], [], 1
+        for x in rinfo:
+            if x is bad:
+                continue
+            n = x["last"] - x["first"] + 1
+            keep += lines[x["first"] - 1: x["last"]]
+            new_info.append({"backend": x["backend"], "round": x["round"], "first": pos, "last": pos + n - 1})
+            pos += n
+        lines, rinfo = keep, new_info
+        if not lines:
+            break
+    ctx.traces_validated += accepted
+    ctx.coverage["concurrent_rounds_validated"] = accepted
+    ctx.coverage["concurrent_trace_events"] = len(lines)
+    if lines:
+        ctx.samples.append({"concurrent_trace_excerpt": [json.loads(x) for x in lines[:12]]})
+
+
 def run(ctx):
     binary = ctx.build_engine("kv")
     if ctx.replay:
         with open(ctx.replay) as f:
             rp = json.load(f)
-        res = ctx.run_engine(binary, rp["test"], rp["input"])
-        ctx.absorb(res, "kv", rp["test"])
+        if "trace" in rp["input"]:
+            validate_concurrent(ctx, binary, 0, payload=rp["input"]["trace"])
+        else:
+            res = ctx.run_engine(binary, rp["test"], rp["input"])
+            ctx.absorb(res, "kv", rp["test"])
         return ctx.finish("model_checking", "replay of one recorded behaviour")
 
     thorough = not ctx.quick()
@@ -38,6 +94,7 @@ def run(ctx):
                                        seed=ctx.seed * 1000 + i, timeout=900)
     res = ctx.run_engine(binary, "TestKVReplay", {"keys": KEYS_FULL, "behaviours": behaviours}, timeout=3000)
     ctx.absorb(res, "kv", "TestKVReplay")
+    validate_concurrent(ctx, binary, rounds=60 if thorough else 15)
     ctx.coverage["behaviours_generated"] = len(behaviours)
     ctx.coverage["steps_replayed"] = res.get("steps", 0)
     ctx.assumptions += [
